@@ -115,7 +115,9 @@ NewOps(role) == SubSeq(tr'[role], Len(tr[role]) + 1, Len(tr'[role]))
 AppOp(r) == IF Has(r, "str") THEN OpA(r.l, "str", r.str) ELSE OpA(r.l, "raw", r.raw)
 
 \* challenge scalars the code derived during this event, in order
-ChVals(tx) == LET sel == SelectSeq(tx, LAMBDA r : r.o = "C")
+\* (those of the main transcript first, then those drawn on forks - the verifier's combiner r: where in the sequence of operations a fork
+\*  challenge is drawn is a matter of C04 / C06 / C18, which compare the operations themselves; the verdict is computed from the values)
+ChVals(tx) == LET sel == SelectSeq(tx, LAMBDA r : r.o = "C" /\ r.f = 0) \o SelectSeq(tx, LAMBDA r : r.o = "C" /\ r.f # 0)
               IN [k \in 1 .. Len(sel) |-> IF Has(sel[k], "val") THEN sel[k].val ELSE 1]
 
 \* the call record handed to System: expression trees are flattened by the specification's LC operators
@@ -237,8 +239,12 @@ RefExplains ==
     /\ \/ (Ev.res = "ok") <=> (a.Ires = 0 /\ a.Tres = 0)
        \/ a.Tres # 0 /\ a.mega = 0
 
+\* a proof with the identity in a mandatory position (on a toy group an honest T_k is the identity with probability 1/P): what the verifier does
+\* with it is C03's statement (CMP_V); no other property says anything about such a run
+IdentityOnWire == wire # NoProof /\ ~MandatoryNonIdentity(wire)
 VerifyOutcome ==
   \/ degen'
+  \/ ~CmpV /\ IdentityOnWire
   \/ /\ CmpV => (res'.V = Ev.res /\ RefExplains)
      /\ CmpK => ((Ev.res = "InvalidGeneratorsLength") <=> (res'.V = "InvalidGeneratorsLength"))
      /\ CmpI => IntegrityOrder(Ev.tx, NewOps("V"))
@@ -259,7 +265,8 @@ TraceVerify ==
 \* end of a run: the transcripts handed back must drive identical follow-up challenges (C06)
 TraceEnd ==
   /\ IsEvent("end") /\ ~degen
-  /\ (res.P = "ok" /\ res.V = "ok" /\ wire = sent) => Ev.sync \in {"same", "skip"}     \* skip: not measured (batch members)
+  \* (both roles of the code itself returned a transcript; judged where transcript operations are compared: C06, C18)
+  /\ (CmpO /\ obs.pres = "ok" /\ obs.vres = "ok" /\ wire = sent /\ ~IdentityOnWire) => Ev.sync \in {"same", "skip"}     \* skip: not measured (batch members)
   /\ UNCHANGED vars
 
 \* the prover's assignment as read through the hook: every gate is (left, right, output) of the specification's assignment (C16)
@@ -338,7 +345,7 @@ TraceNext ==
        /\ UNCHANGED << obs, pool >> /\ LibSame
   \/ (TraceGens \/ TraceEncode \/ TraceWireBytes \/ TraceDecodeB) /\ UNCHANGED << obs, pool >>
   \/ TraceEnd /\ UNCHANGED obs /\ LibSame
-       /\ pool' = IF res.V = "" THEN pool ELSE Append(pool, [res |-> res.V, alg |-> out.ref, degen |-> FALSE, ores |-> obs.vres])
+       /\ pool' = IF res.V = "" THEN pool ELSE Append(pool, [res |-> res.V, alg |-> out.ref, degen |-> IdentityOnWire, ores |-> obs.vres])
   \/ (degen /\ IsEvent("end") /\ UNCHANGED << vars, obs >> /\ LibSame /\ pool' = Append(pool, [res |-> "", alg |-> << >>, degen |-> TRUE, ores |-> obs.vres]))
   \/ (TraceProve2 \/ TraceProve) /\ obs' = [obs EXCEPT !.pres = Ev.res] /\ UNCHANGED pool /\ LibSame
   \/ (TraceVerify2 \/ TraceVerify) /\ obs' = [obs EXCEPT !.vres = Ev.res] /\ UNCHANGED pool /\ LibSame
